@@ -5,9 +5,13 @@ import os
 
 # field pool: name -> (true function space, vector size)
 FIELDS = {
-    "a0": ("w0", 1), "b0": ("w0", 1), "a1": ("w1", 1), "a2": ("w2", 1),
-    "b2": ("w2", 1), "a3": ("w3", 1), "b3": ("w3", 1), "at": ("wtheta", 1),
-    "av": ("w2v", 1), "v0": ("w0", 3), "v3": ("w3", 3),
+    "a0": ("w0", 1), "b0": ("w0", 1), "c0": ("w0", 1),
+    "a1": ("w1", 1), "b1": ("w1", 1),
+    "a2": ("w2", 1), "b2": ("w2", 1), "c2": ("w2", 1),
+    "a3": ("w3", 1), "b3": ("w3", 1), "c3": ("w3", 1),
+    "at": ("wtheta", 1), "bt": ("wtheta", 1),
+    "av": ("w2v", 1), "bv": ("w2v", 1),
+    "v0": ("w0", 3), "v3": ("w3", 3),
 }
 DISC = ("w3", "wtheta", "w2v")
 
@@ -105,7 +109,7 @@ BUILTINS = [
     ("inc_x_plus_y(%s, %s)", 2),
     ("a_times_x(%s, a, %s)", 2),
     ("inc_a_times_x(a, %s)", 1),
-    ("inc_axpy(a, %s, %s)", 2),
+    ("inc_ax_plus_y(a, %s, %s)", 2),
     ("x_times_y(%s, %s, %s)", 3),
     ("x_innerproduct_y(asum, %s, %s)", 2),
     ("sum_x(asum, %s)", 1),
@@ -142,13 +146,16 @@ def algorithm(rnd, name, kdir):
                     s for s, v in FIELDS.values() if v == 1)))
                 pool = [f for f, (s, v) in FIELDS.items()
                         if s == sp and v == 1]
+                if nf > len(pool):
+                    continue
                 fs = []
                 for i in range(nf):
-                    pref = [f for f in pool if f in hot]
+                    left = [f for f in pool if f not in fs]
+                    pref = [f for f in left if f in hot]
                     if i > 0 and pref and rnd.random() < 0.7:
                         fs.append(rnd.choice(pref))
                     else:
-                        fs.append(rnd.choice(pool))
+                        fs.append(rnd.choice(left))
                 calls.append(tmpl % tuple(fs))
                 if "innerproduct" not in tmpl and "sum_x" not in tmpl:
                     hot.append(fs[0])
@@ -188,6 +195,8 @@ def algorithm(rnd, name, kdir):
                 break
         if calls:
             invokes.append(calls)
+    if not invokes:
+        invokes = [["setval_c(a0, 0.0_r_def)"]]
     decl = []
     for f, (sp, v) in sorted(FIELDS.items()):
         decl.append("  type(field_type) :: %s%s" % (f, "(%d)" % v
